@@ -175,6 +175,7 @@ def emit_unit(u, order, exclude=(), helpers=False):
             if ia:
                 ASSERTS.setdefault(u.name, {})[name] = ia
             texts[name] = d
+            DEFTEXT[(u.name, name)] = d
             return None
         except Unsupported as e:
             return str(e)
@@ -223,6 +224,18 @@ def emit_unit(u, order, exclude=(), helpers=False):
     return "\n".join(out), done, skipped
 
 ORDER = ["next_u32", "next_u64", "fill_bytes", "jump", "long_jump", "from_seed", "seed_from_u64"]
+DEFTEXT = {}      # (unit, fn) -> text of the translated definition
+def shape_is_pinned(G, fn):
+    """is the current translation of G.fn textually the one the shape lemma of Rngs/Lib/ExtTieShapes.lean was generated from?
+    (then `Ext.G.fn … = ExtShape.G.fn …` is closed by `rfl` at once; otherwise the generic proof path is emitted instead)"""
+    try:
+        pinned = json.load(open(os.path.join(os.path.dirname(os.path.dirname(os.path.abspath(__file__))), "lean", "Rngs", "Lib", "ExtTieShapes.json")))
+    except Exception:
+        return False
+    d = DEFTEXT.get((G, fn))
+    return d is not None and pinned.get(f"{G}.{fn}") == hashlib.sha256(d.encode()).hexdigest()
+
+HELPERS = {}      # unit -> translated functions that have no correspondence statement (helpers extracted by a refactoring)
 ASSERTS = {}      # unit -> fn -> assert!/debug_assert! statements that were skipped (panics are C14's subject)
 
 def generate_defs(repo, exclude=None):
@@ -296,38 +309,44 @@ PROOFS = {
 # ---- proof scripts of the block generators.  Each is `first | fast path | generic path`: the fast path rewrites the model side
 # with the shape lemma of the pinned translation (ExtTieShapes.lean) and closes syntactically; the generic path unfolds both
 # sides (`simp only`) and is what survives harmless rewrites of the source.
+def _unf(G):
+    """simp arguments that unfold the helper functions of unit G"""
+    return "".join(f", Ext.{G}.{h}" for h in HELPERS.get(G, []))
+
 def _hc_helpers():
     return ("\n  have hp : Ext.Hc128Core.step_p = Hc128.stepPC := by\n    funext st i i511 i3 i10 i12; exact ExtTie.Hc128Core.step_p st i i511 i3 i10 i12"
             "\n  have hq : Ext.Hc128Core.step_q = Hc128.stepQC := by\n    funext st i i511 i3 i10 i12; exact ExtTie.Hc128Core.step_q st i i511 i3 i10 i12")
 
 def proof_hc_generate(name):
+    if shape_is_pinned("Hc128Core", "generate"):
+        return ("\n  intro st results" + _hc_helpers() +
+                "\n  exact (show Ext.Hc128Core.generate st results = ExtShape.Hc128Core.generate Ext.Hc128Core.step_p Ext.Hc128Core.step_q st results"
+                "\n           from rfl).trans (by rw [hp, hq]; exact ExtShape.Hc128Core.generate_eq st results)")
     return ("\n  intro st results" + _hc_helpers() +
-            "\n  first"
-            "\n  | exact (show Ext.Hc128Core.generate st results = ExtShape.Hc128Core.generate Ext.Hc128Core.step_p Ext.Hc128Core.step_q st results"
-            "\n             from rfl).trans (by rw [hp, hq]; exact ExtShape.Hc128Core.generate_eq st results)"
-            "\n  | (rw [Hc128.generate_hoisted]"
-            "\n     simp only [Ext.Hc128Core.generate, hp, hq, Hc128.blockWith, Hc128.TABLE, List.foldl, Hc128.idx, Hc128.bases, Hc128.USIZE]"
-            "\n     split <;> simp only [Hc128.stepPC_counter, Hc128.stepQC_counter])")
+            "\n  rw [Hc128.generate_hoisted]"
+            "\n  simp only [Ext.Hc128Core.generate" + _unf("Hc128Core") + ", hp, hq, Hc128.blockWith, Hc128.TABLE, List.foldl, Hc128.idx, Hc128.bases, Hc128.USIZE]"
+            "\n  split <;> simp only [Hc128.stepPC_counter, Hc128.stepQC_counter, Nat.add_zero]")
 
 def proof_hc_sixteen(name):
+    if shape_is_pinned("Hc128Core", "sixteen_steps"):
+        return ("\n  intro st" + _hc_helpers() +
+                "\n  exact (show Ext.Hc128Core.sixteen_steps st = ExtShape.Hc128Core.sixteen_steps Ext.Hc128Core.step_p Ext.Hc128Core.step_q st"
+                "\n           from rfl).trans (by rw [hp, hq]; exact ExtShape.Hc128Core.sixteen_steps_eq st)")
     return ("\n  intro st" + _hc_helpers() +
-            "\n  first"
-            "\n  | exact (show Ext.Hc128Core.sixteen_steps st = ExtShape.Hc128Core.sixteen_steps Ext.Hc128Core.step_p Ext.Hc128Core.step_q st"
-            "\n             from rfl).trans (by rw [hp, hq]; exact ExtShape.Hc128Core.sixteen_steps_eq st)"
-            "\n  | (rw [Hc128.sixteenSteps_hoisted]"
-            "\n     simp only [Ext.Hc128Core.sixteen_steps, hp, hq, Hc128.feedWith, Hc128.TABLE, List.foldl, Hc128.idx, Hc128.bases, Hc128.USIZE]"
-            "\n     split <;> simp only [Hc128.stepPC_counter, Hc128.stepQC_counter])")
+            "\n  rw [Hc128.sixteenSteps_hoisted]"
+            "\n  simp only [Ext.Hc128Core.sixteen_steps" + _unf("Hc128Core") + ", hp, hq, Hc128.feedWith, Hc128.TABLE, List.foldl, Hc128.idx, Hc128.bases, Hc128.USIZE]"
+            "\n  split <;> simp only [Hc128.stepPC_counter, Hc128.stepQC_counter, Nat.add_zero]")
 
 def proof_hc_init(name):
     return ("\n  intros"
             "\n  have h16 : Ext.Hc128Core.sixteen_steps = Hc128.sixteenSteps := funext ExtTie.Hc128Core.sixteen_steps"
-            "\n  simp only [Ext.Hc128Core.init, ExtTie.Hc128Fns.f1, ExtTie.Hc128Fns.f2, h16, Hc128.init, foldl_range'_add, ← BitVec.ofNat_add,"
+            "\n  simp only [Ext.Hc128Core.init" + _unf("Hc128Core") + ", ExtTie.Hc128Fns.f1, ExtTie.Hc128Fns.f2, h16, Hc128.init, foldl_range'_add, ← BitVec.ofNat_add,"
             "\n    Hc128.expandAt, Nat.reduceAdd, Nat.reduceSub, List.take, List.drop, List.cons_append, List.nil_append, List.foldl_cons,"
             "\n    List.foldl_nil, BitVec.ofNat_eq_ofNat]")
 
 def proof_hc_from_seed(name):
     return ("\n  intro seed"
-            "\n  simp only [Ext.Hc128Core.from_seed, ExtTie.Hc128Core.init]"
+            "\n  simp only [Ext.Hc128Core.from_seed" + _unf("Hc128Core") + ", ExtTie.Hc128Core.init]"
             "\n  rfl")
 
 def proof_isaac(fn):
@@ -338,26 +357,24 @@ def proof_isaac(fn):
             return (f"\n  intro st results"
                     f"\n  have hr : Ext.{G}.rngstep = Isaac.rngstepT Isaac.params{w} := by"
                     f"\n    funext mem results mix a b base m m2; exact ExtTie.{G}.rngstep mem results mix a b base m m2"
-                    f"\n  first"
-                    f"\n  | exact (show Ext.{G}.generate st results = ExtShape.{G}.generate Ext.{G}.rngstep st results from rfl).trans"
-                    f"\n      (by rw [hr]; exact ExtShape.{G}.generate_eq st results)"
-                    f"\n  | (rw [← Isaac.generateT_eq]; simp -zeta only [Ext.{G}.generate, hr]; rfl)")
+                    f"\n  exact (show Ext.{G}.generate st results = ExtShape.{G}.generate Ext.{G}.rngstep st results from rfl).trans"
+                    f"\n    (by rw [hr]; exact ExtShape.{G}.generate_eq st results)")
         if fn == "init":
             return (f"\n  intro mem rounds"
                     f"\n  have hm : Ext.{G}.mix = Isaac.mixT Isaac.params{w} := by"
                     f"\n    funext a b c d e f g h; exact ExtTie.{G}.mix a b c d e f g h"
-                    f"\n  first"
-                    f"\n  | exact (show Ext.{G}.init mem rounds = ExtShape.{G}.init Ext.{G}.mix mem rounds from rfl).trans"
-                    f"\n      (by rw [hm]; exact ExtShape.{G}.init_eq mem rounds)"
-                    f"\n  | (rw [← Isaac.initT_eq]; simp -zeta only [Ext.{G}.init, hm]; rfl)")
+                    f"\n  exact (show Ext.{G}.init mem rounds = ExtShape.{G}.init Ext.{G}.mix mem rounds from rfl).trans"
+                    f"\n    (by rw [hm]; exact ExtShape.{G}.init_eq mem rounds)")
         # from_seed / seed_from_u64: the translated `init` is replaced by the model's; the key array (`[w(0); RAND_SIZE]` with
         # the first words stored one by one) is the model's zero-extension `extend` (lemmas Isaac.extend_writes*)
         return (f"\n  intro x"
-                f"\n  simp only [Ext.{G}.{fn}, ExtTie.{G}.init]"
+                f"\n  simp only [Ext.{G}.{fn}{_unf(G)}, ExtTie.{G}.init]"
                 f"\n  first | rw [Isaac.extend_writes8] | rw [Isaac.extend_writes4] | rw [Isaac.extend_writes2] | rw [Isaac.extend_writes1] | skip"
                 f"\n  rfl")
     return f
 
+# the generic paths of the two unrolled 16-step blocks need more than the default budget (only used when the fast path fails)
+HEAVY = {"hc_generate": 2000000, "hc_sixteen_steps": 2000000}
 PROOFS.update({"hc_generate": proof_hc_generate, "hc_sixteen_steps": proof_hc_sixteen, "hc_init": proof_hc_init,
                "hc_from_seed": proof_hc_from_seed, "isaac_generate": proof_isaac("generate"), "isaac_init": proof_isaac("init"),
                "isaac_from_seed": proof_isaac("from_seed"), "isaac_seed_from_u64": proof_isaac("seed_from_u64")})
@@ -417,13 +434,18 @@ def generate(repo, exclude=None):
                 report[u.name] = dict(file=u.file, translated=done, skipped=skipped, shape=u.shape, seed_len=u.seed_len)
                 if ASSERTS.get(u.name):
                     report[u.name]["ignored_asserts"] = ASSERTS[u.name]
-                theorems += thms(u, done)
+                ths = thms(u, done, report[u.name]["skipped"])
+                theorems += ths
+                # translated functions without a statement of their own (extracted helpers): unfolded by the callers' proofs
+                HELPERS[u.name] = [n for n in done if f"{u.name}.{n}" not in {t[0] for t in ths}]
         except Exception as e:
             report[crate + (":Hc128Core" if crate == "rand_hc" and "Hc128Fns" in report else "")] = dict(error=repr(e))
     digest = hashlib.sha256("\n".join(parts).encode()).hexdigest()[:16]
     out = [HEADER.format(digest=digest)] + parts + ["\nnamespace ExtTie"]
     for name, stmt, props, fn in theorems:
         pr = PROOFS[fn]
+        if fn in HEAVY:
+            out.append(f"set_option maxHeartbeats {HEAVY[fn]} in")
         out.append(f"theorem {name} : {stmt} := by" + (pr(name) if callable(pr) else f" {pr} Ext.{name}"))
     out.append("end ExtTie\nend Rngs\n")
     return "\n".join(out), report, theorems
@@ -556,7 +578,40 @@ def build_units_hc(repo):
     u.shape, u.seed_len, u.file = ("Hc128Core", 32), 32, "rand_hc/src/hc128.rs"
     yield u, ["step_p", "step_q", "generate", "sixteen_steps", "init", "from_seed"]
 
-def hc_theorems(u, done):
+def sig_is(u, fn, selfkind, params, ret):
+    """does the translated function still have the signature the correspondence statement is written for?
+    params: [(type, is `&mut`)] with Wrapping / plain integers identified; ret: type or None"""
+    sg = u.sigs.get(fn)
+    if sg is None:
+        return False
+    norm = lambda t: ("arr", rs2lean.unwrap_ty(t[1]), t[2]) if isinstance(t, tuple) and t[0] == "arr" else rs2lean.unwrap_ty(t)
+    have = [(norm(t), n in sg["mutref"]) for n, t in sg["params"]]
+    r = sg["ret"]
+    if r == ("named", u.name):
+        r = ("named", "Self")
+    return (sg["selfkind"] or None) == selfkind and have == [(norm(t), m) for t, m in params] and norm(r) == norm(ret)
+
+def guard(u, done, report_skipped, wanted):
+    """functions of `done` whose signature is the expected one; the others keep their translation (callers may use it) but
+    get no correspondence theorem: the function the statement was about no longer exists in that form"""
+    ok = []
+    for fn in done:
+        if fn not in wanted:
+            continue
+        if sig_is(u, fn, *wanted[fn]):
+            ok.append(fn)
+        else:
+            report_skipped[fn] = "signature changed: the correspondence statement does not apply (translated as a helper only)"
+    return ok
+
+def hc_theorems(u, done, skipped=None):
+    skipped = skipped if skipped is not None else {}
+    N, U32, SELF = "nat", "u32", ("named", "Self")
+    if u.name == "Hc128Core":
+        done = guard(u, done, skipped, {
+            "step_p": ("mut", [(N, False)] * 5, U32), "step_q": ("mut", [(N, False)] * 5, U32),
+            "generate": ("mut", [(("arr", U32, 16), True)], None), "sixteen_steps": ("mut", [], None),
+            "init": (None, [(("arr", U32, 8), False)], SELF), "from_seed": (None, [(("arr", "u8", 32), False)], SELF)})
     if u.name == "Hc128Fns":
         return [(f"Hc128Fns.{n}", f"Ext.Hc128Fns.{n} = Hc128.{n}", ["C02"], n) for n in ("f1", "f2") if n in done]
     E, th = "Ext.Hc128Core", []
@@ -634,9 +689,18 @@ def build_units_isaac(repo):
         except Exception as e:
             yield None, (sname, repr(e))
 
-def isaac_theorems(u, done):
+def isaac_theorems(u, done, skipped=None):
+    skipped = skipped if skipped is not None else {}
     w, E, G = u.width, f"Ext.{u.name}", u.name
     P = f"Isaac.params{w}"
+    W, N, SELF = f"u{w}", "nat", ("named", "Self")
+    A = ("arr", W, 256)
+    done = guard(u, done, skipped, {
+        "ind": (None, [(A, False), (W, False), (N, False)], W),
+        "rngstep": (None, [(A, True), (A, True), (W, False), (W, True), (W, True), (N, False), (N, False), (N, False)], None),
+        "mix": (None, [(W, True)] * 8, None), "generate": ("mut", [(A, True)], None),
+        "init": (None, [(A, False), ("u32", False)], SELF), "from_seed": (None, [(("arr", "u8", 32), False)], SELF),
+        "seed_from_u64": (None, [("u64", False)], SELF)})
     th = []
     def add(fn, stmt, props, key=None):
         if fn in done:
